@@ -397,8 +397,10 @@ enum Op {
 #[derive(Clone, Debug)]
 enum Spec {
   Base(&'static str),
-  Single { sk: &'static str, slot: usize, op: Op },
-  Pair { sk: &'static str, section: String, a: usize, opa: Op, b: usize, opb: Op },
+  /// op = index into the slot's full alphabet
+  Single { sk: &'static str, slot: u32, op: u32 },
+  /// opa / opb = index into the slot's full (reduced = false) or reduced alphabet
+  Pair { sk: &'static str, section: u32, reduced: bool, a: u32, opa: u32, b: u32, opb: u32 },
   Cycle(CycleSpec),
   TransformCycle(Vec<usize>),
   RewriterCycle(Vec<usize>),
@@ -646,7 +648,10 @@ fn build_cycle(c: &CycleSpec, thorough: bool) -> Case {
   if !utils.is_empty() {
     main["utils"] = Value::Object(utils);
   }
-  let route = format!("cycle:{}", canonical_rotation(&parts).join(">"));
+  // the loader's cycle detection is written for references through matches / all / any / not; a
+  // cycle made only of those is a different defect class from one through any other position
+  let composite_only = c.edges.iter().all(|e| *e < 4);
+  let route = format!("{}:{}", if composite_only { "cycle-composite-only" } else { "cycle-via-other-operator" }, canonical_rotation(&parts).join(">"));
   let all_local = c.global.iter().all(|g| !g);
   let all_global = c.global.iter().all(|g| *g);
   Case {
@@ -679,7 +684,7 @@ fn build_transform_cycle(kinds: &[usize]) -> Case {
   Case {
     family: format!("cycle:transform:len{len}"),
     desc: format!("transform cycle {}", parts.join(">")),
-    route: format!("cycle:transform:{}", canonical_rotation(&parts).join(">")),
+    route: format!("cycle-transform:{}", canonical_rotation(&parts).join(">")),
     globals: vec![],
     rule: Some(V::from_json(&main).text()),
     values: vec![],
@@ -707,7 +712,7 @@ fn build_rewriter_cycle(variants: &[usize]) -> Case {
   Case {
     family: format!("cycle:rewriters:len{len}"),
     desc: format!("rewriter cycle {}", parts.join(">")),
-    route: format!("cycle:rewriters:{}", canonical_rotation(&parts).join(">")),
+    route: format!("cycle-rewriters:{}", canonical_rotation(&parts).join(">")),
     globals: vec![],
     rule: Some(V::from_json(&main).text()),
     values: vec![],
@@ -747,28 +752,26 @@ fn raw_texts(thorough: bool) -> Vec<(String, String)> {
       s
     }),
   ];
-  let ops: Vec<(&str, fn(String) -> String, &str)> = vec![
-    ("not", |x| format!("{{not: {x}}}"), "{kind: number}"),
-    ("all", |x| format!("{{all: [{x}]}}"), "{kind: identifier}"),
-    ("any", |x| format!("{{any: [{x}]}}"), "{kind: identifier}"),
-    ("inside", |x| format!("{{inside: {x}}}"), "{kind: program, stopBy: end}"),
-    ("has", |x| format!("{{has: {x}}}"), "{kind: identifier, stopBy: end}"),
-    ("follows", |x| format!("{{follows: {x}}}"), "{kind: identifier, stopBy: end}"),
-    ("stopBy", |x| format!("{{inside: {{kind: program, stopBy: {x}}}}}"), "{kind: program}"),
-    ("ofRule", |x| format!("{{nthChild: {{position: 1, ofRule: {x}}}}}"), "{kind: identifier}"),
+  // (name, opening text, closing text, innermost rule)
+  let ops: Vec<(&str, &str, &str, &str)> = vec![
+    ("not", "{not: ", "}", "{kind: number}"),
+    ("all", "{all: [", "]}", "{kind: identifier}"),
+    ("any", "{any: [", "]}", "{kind: identifier}"),
+    ("inside", "{inside: ", "}", "{kind: program, stopBy: end}"),
+    ("has", "{has: ", "}", "{kind: identifier, stopBy: end}"),
+    ("follows", "{follows: ", "}", "{kind: identifier, stopBy: end}"),
+    ("stopBy", "{inside: {kind: program, stopBy: ", "}}", "{kind: program}"),
+    ("ofRule", "{nthChild: {position: 1, ofRule: ", "}}", "{kind: identifier}"),
   ];
   let depths: &[usize] = if thorough { &[10, 50, 100, 127, 128, 1000, 10000, 100000] } else { &[10, 50, 100, 128, 1000, 10000] };
-  for (name, wrap, leaf) in &ops {
+  for (name, open, close, leaf) in &ops {
     for &d in depths {
       // k nested ofRule levels cost (number of siblings)^k evaluations: finite but far beyond the
       // hang limit from k ~ 20 on; depths that the YAML recursion limit rejects are kept
       if *name == "ofRule" && d > 10 && d < 1000 {
         continue;
       }
-      let mut x = leaf.to_string();
-      for _ in 0..d {
-        x = wrap(x);
-      }
+      let x = format!("{}{}{}", open.repeat(d), leaf, close.repeat(d));
       v.push((format!("nest:{name}:{d}"), format!("id: a\nlanguage: JavaScript\nrule: {{kind: identifier, all: [{x}]}}\n")));
     }
   }
@@ -798,6 +801,7 @@ struct Space {
   raws: Vec<(String, String)>,
   specs: Vec<Spec>,
   dims: BTreeMap<String, u64>,
+  sections: Vec<String>,
 }
 
 fn section_roots(sk: &Skel) -> Vec<(String, Path)> {
@@ -824,6 +828,7 @@ fn section_roots(sk: &Skel) -> Vec<(String, Path)> {
 fn build_space(thorough: bool) -> Space {
   let skels = vec![Skel::new("S1", skeleton_s1()), Skel::new("S2", skeleton_s2())];
   let mut specs = vec![];
+  let mut sections: Vec<String> = vec!["(anywhere)".to_string()];
   let mut dims: BTreeMap<String, u64> = BTreeMap::new();
   let mut bump = |k: String, n: u64| *dims.entry(k).or_insert(0) += n;
   for sk in &skels {
@@ -831,31 +836,33 @@ fn build_space(thorough: bool) -> Space {
     bump(format!("{}:slots", sk.name), sk.paths.len() as u64);
     // singles
     for slot in 0..sk.paths.len() {
-      for op in &sk.ops[slot] {
-        specs.push(Spec::Single { sk: sk.name, slot, op: op.clone() });
+      for op in 0..sk.ops[slot].len() {
+        specs.push(Spec::Single { sk: sk.name, slot: slot as u32, op: op as u32 });
         bump(format!("{}:single", sk.name), 1);
       }
     }
-    // pairs inside the listed sections, full alphabet (quick: reduced alphabet for `transform` and
-    // `rewriters`, whose squares are large; thorough: full)
+    // pairs inside the listed sections (quick: reduced alphabet + alternates; thorough: full alphabet)
     let mut covered: HashSet<(usize, usize)> = HashSet::new();
     for (sname, root) in section_roots(sk) {
       let slots = sk.section_slots(&root);
-      let big = sname == "/transform" || sname == "/rewriters";
-      let use_full = thorough || !big;
+      let use_full = thorough;
       for (ia, &a) in slots.iter().enumerate() {
         for &b in &slots[ia + 1..] {
           if is_prefix(&sk.paths[a], &sk.paths[b]) || is_prefix(&sk.paths[b], &sk.paths[a]) {
             continue;
           }
           covered.insert((a, b));
-          let (oa, ob) = if use_full { (&sk.ops[a], &sk.ops[b]) } else { (&sk.ops_reduced[a], &sk.ops_reduced[b]) };
-          for opa in oa {
-            for opb in ob {
-              specs.push(Spec::Pair { sk: sk.name, section: sname.clone(), a, opa: opa.clone(), b, opb: opb.clone() });
-              bump(format!("{}:pair:{}{}", sk.name, sname, if use_full { "" } else { " (reduced alphabet)" }), 1);
+          let (na, nb) = if use_full { (sk.ops[a].len(), sk.ops[b].len()) } else { (sk.ops_reduced[a].len(), sk.ops_reduced[b].len()) };
+          let sec = sections.iter().position(|x| *x == sname).unwrap_or_else(|| {
+            sections.push(sname.clone());
+            sections.len() - 1
+          }) as u32;
+          for opa in 0..na {
+            for opb in 0..nb {
+              specs.push(Spec::Pair { sk: sk.name, section: sec, reduced: !use_full, a: a as u32, opa: opa as u32, b: b as u32, opb: opb as u32 });
             }
           }
+          bump(format!("{}:pair:{}{}", sk.name, sname, if use_full { "" } else { " (reduced alphabet)" }), (na * nb) as u64);
         }
       }
     }
@@ -866,13 +873,13 @@ fn build_space(thorough: bool) -> Space {
           if covered.contains(&(a, b)) || is_prefix(&sk.paths[a], &sk.paths[b]) || is_prefix(&sk.paths[b], &sk.paths[a]) {
             continue;
           }
-          for opa in &sk.ops_reduced[a] {
-            for opb in &sk.ops_reduced[b] {
-              // alternates x alternates and nasty x nasty both included
-              specs.push(Spec::Pair { sk: sk.name, section: "(anywhere)".into(), a, opa: opa.clone(), b, opb: opb.clone() });
-              bump(format!("{}:pair:anywhere (reduced alphabet)", sk.name), 1);
+          let (na, nb) = (sk.ops_reduced[a].len(), sk.ops_reduced[b].len());
+          for opa in 0..na {
+            for opb in 0..nb {
+              specs.push(Spec::Pair { sk: sk.name, section: 0, reduced: true, a: a as u32, opa: opa as u32, b: b as u32, opb: opb as u32 });
             }
           }
+          bump(format!("{}:pair:anywhere (reduced alphabet)", sk.name), (na * nb) as u64);
         }
       }
     }
@@ -924,7 +931,7 @@ fn build_space(thorough: bool) -> Space {
     specs.push(Spec::Raw(i));
     bump("raw".into(), 1);
   }
-  Space { thorough, skels, raws, specs, dims }
+  Space { thorough, skels, raws, specs, dims, sections }
 }
 
 impl Space {
@@ -942,16 +949,20 @@ impl Space {
         let sk = self.skel(sk);
         let mut doc = sk.doc.clone();
         let mut values = vec![];
-        let desc = sk.apply(&mut doc, *slot, op, &mut values);
+        let slot = *slot as usize;
+        let desc = sk.apply(&mut doc, slot, &sk.ops[slot][*op as usize], &mut values);
         let (globals, rule) = sk.wrap(&doc);
-        Case { family: format!("{}:single", sk.name), desc, route: format!("subst:{}", top_section(&sk.paths[*slot])), globals, rule, values }
+        Case { family: format!("{}:single", sk.name), desc, route: format!("subst:{}", top_section(&sk.paths[slot])), globals, rule, values }
       }
-      Spec::Pair { sk, section, a, opa, b, opb } => {
+      Spec::Pair { sk, section, reduced, a, opa, b, opb } => {
         let sk = self.skel(sk);
         let mut doc = sk.doc.clone();
         let mut values = vec![];
-        let d1 = sk.apply(&mut doc, *a, opa, &mut values);
-        let d2 = sk.apply(&mut doc, *b, opb, &mut values);
+        let (a, b) = (*a as usize, *b as usize);
+        let table = if *reduced { &sk.ops_reduced } else { &sk.ops };
+        let section = &self.sections[*section as usize];
+        let d1 = sk.apply(&mut doc, a, &table[a][*opa as usize], &mut values);
+        let d2 = sk.apply(&mut doc, b, &table[b][*opb as usize], &mut values);
         let (globals, rule) = sk.wrap(&doc);
         Case { family: format!("{}:pair", sk.name), desc: format!("{d1} ; {d2}"), route: format!("subst:{}", section.trim_start_matches('/')), globals, rule, values }
       }
@@ -1003,6 +1014,7 @@ const CRAFTED_JS: &[&str] = &[
 ];
 
 struct Sources {
+  g0: Option<GlobalRules<SupportLang>>,
   thorough: bool,
   cache: HashMap<SupportLang, Vec<(AstGrep<D>, bool)>>,
 }
@@ -1029,12 +1041,24 @@ impl Sources {
   }
 }
 
-fn load(globals: &[String], rule: &str) -> Result<RuleCollection<SupportLang>, String> {
+fn load_globals(globals: &[String]) -> Result<GlobalRules<SupportLang>, String> {
   let mut utils = vec![];
   for g in globals {
     utils.push(from_str(g).map_err(|e| format!("global util yaml: {}", error_chain(&e)))?);
   }
-  let globals: GlobalRules<SupportLang> = DeserializeEnv::<SupportLang>::parse_global_utils(utils).map_err(|e| format!("global utils: {}", error_chain(&e)))?;
+  DeserializeEnv::<SupportLang>::parse_global_utils(utils).map_err(|e| format!("global utils: {}", error_chain(&e)))
+}
+
+fn load(globals: &[String], rule: &str, g0: &mut Option<GlobalRules<SupportLang>>) -> Result<RuleCollection<SupportLang>, String> {
+  // the fixed global file of the S1 cases is parsed once per child (registrations are immutable after parsing)
+  let globals: GlobalRules<SupportLang> = if globals.len() == 1 && globals[0] == global_g0() {
+    if g0.is_none() {
+      *g0 = Some(load_globals(globals)?);
+    }
+    g0.clone().unwrap()
+  } else {
+    load_globals(globals)?
+  };
   let configs = from_yaml_string::<SupportLang>(rule, &globals).map_err(|e| format!("rule: {}", error_chain(&e)))?;
   RuleCollection::try_new(configs).map_err(|e| format!("glob: {}", error_chain(&e)))
 }
@@ -1071,7 +1095,9 @@ fn child_case(wire: &Value, sources: &mut Sources, idx: u64, out: &mut impl Writ
   let small_only = wire["small"].as_bool().unwrap_or(false);
   writeln!(out, "P {idx} load").ok();
   out.flush().ok();
-  let loaded = guarded(std::panic::AssertUnwindSafe(|| load(&globals, &rule)));
+  let mut g0 = sources.g0.take();
+  let loaded = guarded(std::panic::AssertUnwindSafe(|| load(&globals, &rule, &mut g0)));
+  sources.g0 = g0;
   let coll = match loaded {
     Err(p) => {
       writeln!(out, "R {idx} {}", json!({"load": "panic", "msg": p, "at": last_panic_loc()})).ok();
@@ -1121,29 +1147,35 @@ fn child_case(wire: &Value, sources: &mut Sources, idx: u64, out: &mut impl Writ
 
 fn child_main(thorough: bool) -> ! {
   quiet_panics();
-  let h = std::thread::Builder::new()
-    .stack_size(CHILD_STACK)
-    .spawn(move || {
-      let stdin = std::io::stdin();
-      let mut out = std::io::stdout();
-      let mut sources = Sources { thorough, cache: HashMap::new() };
-      for line in stdin.lock().lines() {
-        let Ok(line) = line else { break };
-        let Some((idx, body)) = line.split_once(' ') else { continue };
-        let idx: u64 = idx.parse().unwrap_or(0);
-        let wire: Value = match serde_json::from_str(body) {
-          Ok(v) => v,
-          Err(_) => {
-            writeln!(out, "R {idx} {}", json!({"load": "machinery", "msg": "child could not parse the case"})).ok();
-            out.flush().ok();
-            continue;
-          }
-        };
-        child_case(&wire, &mut sources, idx, &mut out);
+  let stdin = std::io::stdin();
+  let mut sources = Sources { g0: None, thorough, cache: HashMap::new() };
+  for line in stdin.lock().lines() {
+    let Ok(line) = line else { break };
+    let Some((idx, body)) = line.split_once(' ') else { continue };
+    let idx: u64 = idx.parse().unwrap_or(0);
+    let wire: Value = match serde_json::from_str(body) {
+      Ok(v) => v,
+      Err(_) => {
+        println!("R {idx} {}", json!({"load": "machinery", "msg": "child could not parse the case"}));
+        continue;
       }
-    })
-    .expect("spawn child worker thread");
-  let _ = h.join();
+    };
+    // every case runs on a FRESH thread: std seeds the per-thread SipHash keys of HashMap from
+    // getrandom() (owned by the LD_PRELOAD shim, a pure function of VERIF_HASH_SEED) and then
+    // counts up per map, so a fresh thread gives every case the same hash iteration orders no
+    // matter which cases this child ran before. The thread has the stack of a main thread.
+    let sources = &mut sources;
+    std::thread::scope(|sc| {
+      let h = std::thread::Builder::new()
+        .stack_size(CHILD_STACK)
+        .spawn_scoped(sc, move || {
+          let mut out = std::io::stdout();
+          child_case(&wire, sources, idx, &mut out);
+        })
+        .expect("spawn case thread");
+      let _ = h.join();
+    });
+  }
   std::process::exit(0)
 }
 
@@ -1463,6 +1495,19 @@ fn main() {
     println!("{}", serde_json::to_string_pretty(&json!({"cases": n, "dims": space.dims})).unwrap());
     std::process::exit(0);
   }
+  if let Some(k) = args.extra.iter().position(|a| a == "--wires") {
+    // debugging aid: print the wire lines of cases [from, from + count)
+    let from: usize = args.extra.get(k + 1).and_then(|x| x.parse().ok()).unwrap_or(0);
+    let count: usize = args.extra.get(k + 2).and_then(|x| x.parse().ok()).unwrap_or(1000);
+    let t = Instant::now();
+    let mut out = String::new();
+    for i in from..(from + count).min(n) {
+      out.push_str(&format!("{} {}\n", i, space.materialise(i).wire()));
+    }
+    eprintln!("materialise+wire of {count} cases: {:?}", t.elapsed());
+    print!("{out}");
+    std::process::exit(0);
+  }
   if let Some(k) = args.extra.iter().position(|a| a == "--dump") {
     let i: usize = args.extra.get(k + 1).and_then(|x| x.parse().ok()).unwrap_or(0);
     println!("{}", json!({"property": "C11", "sig": "", "case": space.materialise(i).json()}));
@@ -1626,7 +1671,13 @@ fn main() {
   err_top.sort_by(|a, b| b.1.cmp(a.1).then(a.0.cmp(b.0)));
   let sigs = sigs.into_inner().unwrap();
   // crash classes: signatures with the cycle route / section suffix removed
-  let classes: BTreeSet<String> = sigs.iter().map(|s| s.split(":cycle:").next().unwrap_or(s).split(":subst:").next().unwrap_or(s).to_string()).collect();
+  let classes: BTreeSet<String> = sigs
+    .iter()
+    .map(|s| match s.find(":cycle-") {
+      Some(k) => s[..k + s[k + 1..].find(':').map(|j| j + 1).unwrap_or(s.len() - k)].to_string(),
+      None => s.split(":subst:").next().unwrap_or(s).to_string(),
+    })
+    .collect();
   let s1 = space.skel("S1");
   let s2 = space.skel("S2");
   let bounds = json!({
@@ -1655,7 +1706,7 @@ fn main() {
   let cov = json!({
     "evaluations": distinct,
     "distinct_nontrivial": mat,
-    "rule": "a case = (global utility rule files, rule file) text; cases = skeleton S1 (rule file with every section) and S2 (global utility rule file): every single substitution of every slot (every node of the document tree) by every value of the nasty alphabet + per-slot valid alternates + (map slots) one added key per nasty string; every pair of substitutions at two non-nested slots inside the sections transform / fix / rewriters / each nthChild / each range (quick: the two big sections transform and rewriters use the reduced alphabet; thorough: full alphabet there, and every other non-nested slot pair of the whole document with the reduced alphabet); every reference cycle of length 1..3 over the edge alphabet, see bounds; a list of raw texts. Identical texts are run once. Each accepted configuration is scanned (find_all, get_message, get_fixer + make_edit + generate_replacement) over the source set of its language. distinct_nontrivial = distinct cases the loader accepted AND that produced at least one match during the scan (so message / transform / fix code ran)",
+    "rule": "a case = (global utility rule files, rule file) text; cases = skeleton S1 (rule file with every section) and S2 (global utility rule file): every single substitution of every slot (every node of the document tree) by every value of the nasty alphabet + per-slot valid alternates + (map slots) one added key per nasty string; every pair of substitutions at two non-nested slots inside the sections transform / fix / rewriters / each nthChild / each range (quick: values from the reduced alphabet + alternates; thorough: full alphabet, and additionally every other non-nested slot pair of the whole document with the reduced alphabet); every reference cycle of length 1..3 over the edge alphabet, see bounds; a list of raw texts. Identical texts are run once. Each accepted configuration is scanned (find_all, get_message, get_fixer + make_edit + generate_replacement) over the source set of its language. distinct_nontrivial = distinct cases the loader accepted AND that produced at least one match during the scan (so message / transform / fix code ran)",
     "exhaustive": only.is_none(),
     "debug_family_filter": only,
     "cases_generated": n,
